@@ -117,6 +117,14 @@ func (c *Ctx) expandD(atoms []Atom, e *env, depth int) []Atom {
 		return out
 	}
 	for _, a := range atoms {
+		if a.Kind == "cmp" && (a.Op == "==" || a.Op == "!=") {
+			// a comparison of a classifying helper's result with a constant: what the helper established on the
+			// paths that return that constant (or, for !=, on all paths that return another one)
+			if sub := c.valueSummaryAtoms(a, e, atoms); len(sub) > 0 {
+				out = append(out, c.expandD(sub, e, depth-1)...)
+			}
+			continue
+		}
 		if a.Kind != "call" || a.Fn == nil || !inModule(a.Fn) {
 			continue
 		}
@@ -258,4 +266,132 @@ func (c *Ctx) callCompatible(a Atom, given []Atom) bool {
 		}
 	}
 	return false
+}
+
+// valueSummary: for a module function with one result of a basic non-bool kind (an enum, typically), the path
+// conditions under which each constant is returned, over the callee's parameter keys. ok is false when some path
+// returns something that is not a constant.
+type valueSummary struct {
+	byConst map[string][][]Atom
+	ok      bool
+}
+
+func (c *Ctx) valueSummaryOf(fn *ssa.Function) *valueSummary {
+	memo := "valsum:" + fnName(fn)
+	if s, ok := c.roles[memo]; ok {
+		return s.(*valueSummary)
+	}
+	s := &valueSummary{byConst: map[string][][]Atom{}}
+	c.roles[memo] = s
+	if fn == nil || fn.Blocks == nil || fn.Signature.Results().Len() != 1 {
+		return s
+	}
+	b, isBasic := fn.Signature.Results().At(0).Type().Underlying().(*types.Basic)
+	if !isBasic || b.Info()&types.IsBoolean != 0 || b.Info()&(types.IsInteger|types.IsString) == 0 {
+		return s
+	}
+	paths, complete := c.enumPaths(fn, 2000)
+	if !complete || len(paths) == 0 {
+		return s
+	}
+	for _, p := range paths {
+		if p.Ret == nil {
+			if p.Cut {
+				return s
+			}
+			continue
+		}
+		k, isConst := c.resolve(p.Ret.Results[0], p.Env).(*ssa.Const)
+		if !isConst {
+			return s
+		}
+		key := c.constName(k)
+		s.byConst[key] = append(s.byConst[key], append([]Atom(nil), p.Atoms...))
+	}
+	s.ok = true
+	return s
+}
+
+func (c *Ctx) valueSummaryAtoms(a Atom, e *env, others []Atom) []Atom {
+	bo, ok := a.Src.(*ssa.BinOp)
+	if !ok {
+		return nil
+	}
+	ae := e
+	if ae == nil && a.Env != nil {
+		ae = a.Env
+	}
+	var call *ssa.Call
+	for _, side := range []ssa.Value{bo.X, bo.Y} {
+		if cl, isCall := c.resolve(side, ae).(*ssa.Call); isCall && cl.Call.StaticCallee() != nil && inModule(cl.Call.StaticCallee()) {
+			call = cl
+		}
+	}
+	if call == nil {
+		return nil
+	}
+	vs := c.valueSummaryOf(call.Call.StaticCallee())
+	if !vs.ok {
+		return nil
+	}
+	// all comparisons of this same call's result that hold here decide together which constants remain
+	// (`!= actAccept ∧ != actShift` in the default branch of a switch leaves actReduce)
+	var sets [][]Atom
+	for k, ss := range vs.byConst {
+		keep := true
+		for _, o := range append([]Atom{a}, others...) {
+			if o.Kind != "cmp" || o.Subj != a.Subj || o.Op != "==" && o.Op != "!=" {
+				continue
+			}
+			if (o.Op == "==") != (k == o.Val) {
+				keep = false
+			}
+		}
+		if keep {
+			sets = append(sets, ss...)
+		}
+	}
+	if len(sets) == 0 {
+		return nil
+	}
+	var args []string
+	for _, v := range call.Call.Args {
+		args = append(args, c.key(v, ae))
+	}
+	var out []Atom
+	for _, x := range commonAtoms(sets) {
+		y := x
+		y.Subj = substParams(x.Subj, args)
+		y.Val = substParams(x.Val, args)
+		if y.Kind == "call" && y.Fn != nil {
+			// keep the callee for further reading only when its arguments are the classifying helper's own
+			// parameters: they are then the arguments of this call
+			g := call.Call.StaticCallee()
+			var mapped []ssa.Value
+			okMap := true
+			for _, na := range x.Args {
+				idx := -1
+				if p, isP := c.resolve(na, nil).(*ssa.Parameter); isP {
+					for i, fp := range g.Params {
+						if fp == p {
+							idx = i
+						}
+					}
+				}
+				if idx >= 0 && idx < len(call.Call.Args) {
+					mapped = append(mapped, call.Call.Args[idx])
+				} else {
+					okMap = false
+				}
+			}
+			if okMap {
+				y.Args = mapped
+			} else {
+				y.Fn = nil
+			}
+		}
+		y.Env = ae
+		out = append(out, y)
+	}
+	return out
 }
